@@ -15,7 +15,7 @@ from ..gen import c03_common as K
 
 PID = "C03"
 COQ_HEADER = ("From Coq Require Import List NArith ZArith Bool.\nImport ListNotations.\n"
-              "From SK Require Import lib.Tok lib.LGraph model.C03_Model model.C03_Order.\n")
+              "From SK Require Import lib.Tok lib.LGraph model.C03_Model model.C03_Order model.C03_Reactor.\n")
 SHARD = 24
 IMPL_TIMEOUT = 1500
 COQ_TIMEOUT = 1500
@@ -25,7 +25,7 @@ RULE = ("(template, substrate, direction, strategy, hydrogen mode) with template
         "hand-made rule, or a synthetic ITS graph planted on a random host; non-trivial = at least one glued result and a "
         "template with >= 2 changed bonds; distinct = distinct (template, substrate, configuration)")
 EXHAUSTIVE = {"quick": False, "thorough": False}
-EXPLANATION = ("60 theorems (coq/props/C03.v) about the Gallina model of SynReactor._glue_graph/_node_glue, _invert_template, _explicit_h, "
+EXPLANATION = ("65 theorems (coq/props/C03.v) about the Gallina model of SynReactor._glue_graph/_node_glue, _invert_template, _explicit_h, "
                "h_to_explicit and SynRule.__init__ (implicit-template mode; default mode for templates without explicit H atoms): for every host, rule and valid match the reactant side of the glued ITS "
                "(on its_decompose, what _to_smarts serialises) is the substrate; element counts incl. hydrogen and total charge agree on both "
                "sides for a balanced rule (and differ by exactly the rule's imbalance otherwise); changed bonds = image of the rule's bonds with "
@@ -45,6 +45,8 @@ TRUSTED_BASE = [
     "oracle inputs: RDKit SMILES parsing of substrate / template, networkx VF2 enumeration (the mappings handed to the model are the implementation's; "
     "each is re-validated by match_okb / match_rcb inside run_c03)",
     "networkx Graph semantics (attribute dicts per unordered pair), CPython round() = round-half-to-even",
+    "coq/model/C03_Reactor.v (state machine of the cached attributes + string logic of smarts_list / smiles_list / reverse_reaction); oracle input: RDKit's "
+    "graph_to_smi on both sides of every result (harness/gen/c03_common.py side_smiles)",
     "oracle input: the visiting order of each hydrogen-transfer group inside _explicit_h (iteration order of a Python set), recorded around "
     "nx.connected_components by harness/gen/c03_common.py; the model uses a recorded order only for a component with exactly the same atoms",
 ]
@@ -56,8 +58,9 @@ ASSUMPTIONS = ["templates have typesGH 5-tuples on every node, no wildcard '*' a
                "theorem hypotheses wf_hostb / wf_rcb / match_rcb (distinct node ids, one edge entry per unordered pair, no loops, host orders > 0, "
                "rule orders >= 0; the match is injective, total on the rule's atoms, element/charge equal, host hcount >= rule hcount, reactant-side "
                "orders equal) — true on every correspondence case (recomputed by the model, compared with constant 1)"]
-TESTED_NOT_PROVED = ["serialisation half: _to_smarts / graph_to_smi (RDKit) — returned strings re-parsed and compared with the substrate and for balance (oracle only); "
-                     "results silently dropped by RDKit are counted by the oracle",
+TESTED_NOT_PROVED = ["serialisation half: graph_to_smi (RDKit) on the two sides of every result is an oracle input of the state-machine model (model/C03_Reactor.v: the "
+                     "string logic on top of it — None filter, reversal on the backward direction, smiles_list — is modelled, compared on scripted reads and proved, "
+                     "C03_smarts_direction); that RDKit writes the graph it is given is tested only: returned strings are re-parsed and compared with the substrate (oracle)",
                      "rule preparation in the default mode for templates WITH explicit hydrogen atoms (three-step _strip_explicit_h + typesGH refresh): proved only "
                      "that the rule is the template minus some explicit H atoms with all remaining atoms (up to hydrogen counts) and all bonds among them kept "
                      "(C03_synrule_default_skeleton) and that a kept atom's hydrogen count on a side = number of that side's bonds to the removed atoms "
@@ -341,7 +344,7 @@ def _api_cases(rng, full):
         if "strategy_fixed" in kw:
             c["strategy"] = kw.pop("strategy_fixed")
         c.update(kw)
-        c["name"] = "api:%s:%s:%s" % (name, c.get("family", "?"), json.dumps({k: v for k, v in c.items() if k in ("sub", "sub_form", "tpl_form", "opts", "invert", "mode", "reads", "first")}, sort_keys=True)[:160])
+        c["name"] = "api:%s:%s:%s" % (name, c.get("family", "?"), json.dumps({k: v for k, v in c.items() if k in ("sub", "sub_form", "tpl_form", "opts", "invert", "mode", "reads", "first", "script")}, sort_keys=True)[:260])
         return c
     import json
     for name, r, mode, sub, bsub in API_SEEDS:
@@ -405,6 +408,24 @@ def _api_cases(rng, full):
     for name, r, mode, sub, bsub in API_SEEDS[:4]:
         for first in ("its_list", "smarts_list", "smiles_list", "mapping_count"):
             out.append(base(name, r, mode, sub, family="first-" + first, first=first))
+    # --- SCRIPTS of reads on one fresh reactor, every value compared with the state machine of model/C03_Reactor.v
+    # (lazily cached _rule / _mappings + flag / _its / _smarts; string half of the serialisation: None filter, reversal on
+    # the backward direction, smiles_list = last part)
+    scripts = [["smiles_list", "its_list", "mapping_count", "smarts_list", "its", "mappings", "rule", "smiles_list"],
+               ["its_list", "its", "smarts", "smarts_list", "smiles_list", "_mappings_prop"],
+               ["mapping_count", "smarts_list", "its_list", "rule"],
+               ["smarts_list", "smarts_list", "smiles_list", "smiles_list"]]
+    attrs = ["rule", "mappings", "_mappings_prop", "mapping_count", "its_list", "its", "smarts_list", "smarts", "smiles_list"]
+    for name, r, mode, sub, bsub in API_SEEDS[:4]:
+        for k, sc in enumerate(scripts + [[rng.choice(attrs) for _ in range(rng.randint(3, 7))]]):
+            out.append(base(name, r, mode, sub, family="script", script=sc, strategy_fixed="all"))
+            if bsub and k % 2 == 0:
+                out.append(base(name, r, mode, bsub, inv=True, family="script-bwd", script=sc, strategy_fixed="all"))
+        if bsub:
+            out.append(base(name, r, mode, bsub, inv=True, family="script-bwd-synrule", script=scripts[0], tpl_form="synrule", strategy_fixed="all"))
+    for name, r, sub, inv in FIRSTS:
+        for sc in (scripts[1], scripts[3], [rng.choice(attrs) for _ in range(rng.randint(3, 7))]):
+            out.append(base(name, r, "E", sub, inv=inv, family="script-xh", script=sc, strategy_fixed="all"))
     # --- the caller's substrate OBJECT used, edited in place (attributes of existing atoms), used again
     for name, smi, r1, m1, edits, r2, m2 in EDIT_SCENARIOS:
         for form in (None, "syngraph"):
@@ -528,6 +549,12 @@ def prepare(case):
                        "nmaps": len(rec.mappings), "nraw": len(rec.raw)}
         if any(t for row in ords for t in row):
             case["pre"]["ords"] = ords      # visiting orders of hydrogen-transfer groups that are not the sorted order
+        if case.get("script"):
+            # the state machine needs ALL mappings and re-matches (no truncation) and RDKit's strings for every result
+            full = len(rec.glue_calls) <= MAXM and all(rm is None or len(rm) <= MAXR for _, rm, _, _ in rec.glue_calls)
+            if full and rec.its_err is None:
+                case["pre"]["script"] = [K.SCRIPT_OPS[a] for a in case["script"]]
+                case["pre"]["sers"] = K.side_smiles(rec.its_list)
     except Exception as e:
         case["pre"] = {"outside": "encoding: " + str(e)[:120]}
     return case
@@ -635,6 +662,8 @@ def _impl_one(case):
     obs.append(1)                            # the explicit-hydrogen route is taken exactly when the pattern keeps X-H (model: flag vs re-matches)
     if case.get("reads"):
         return [obs, 1 if rec.reads_ok else 0]   # repeated reads of the cached attributes all gave the first value
+    if pre is not None and pre.get("script") is not None:
+        return [obs, K.script_obs(rec)]          # the value of every scripted read (model: run_reads)
     return obs
 
 
@@ -673,6 +702,13 @@ def coq_case(case):
     t = "%s %s %s %s %s %s %s %s" % ("run_c03ro" if case.get("tpl_form") == "synrule" else "run_c03o", K.cb(case.get("invert", False)), K.cb(mode == "I"), K.cb(mode == "E"), host, tpl, K.cl(calls), tbls)
     if case.get("reads"):
         return "L [%s; tbool true]" % t
+    if pre.get("script") is not None:
+        cstr = lambda b: "None" if b is None else "(Some %s)" % K.cl([K.cN(x) for x in b])
+        sers = K.cl(["(%s, %s)" % (cstr(a), cstr(b)) for a, b in pre["sers"]])
+        rd = "run_reads %s %s %s %s %s %s %s %s %s %s" % (K.cb(case.get("invert", False)), K.cb(mode == "I"), K.cb(mode == "E"),
+                                                   K.cb(case.get("tpl_form") == "synrule"), host, tpl, K.cl(calls), tbls, sers,
+                                                   K.cl([K.cN(x) for x in pre["script"]]))
+        return "L [%s; %s]" % (t, rd)
     return t
 
 
@@ -1024,7 +1060,7 @@ def gen_cases(tier, rng):
     return prepare_all(cases)
 
 
-LEVEL_TEXT = ("Machine-checked proof (Coq, 60 theorems, all closed under the global context) over an executable model of gluing a rule onto a "
+LEVEL_TEXT = ("Machine-checked proof (Coq, 65 theorems, all closed under the global context) over an executable model of gluing a rule onto a "
               "substrate along a match (SynReactor._glue_graph/_node_glue), _invert_template, _explicit_h, h_to_explicit and SynRule.__init__ "
               "(implicit-template mode; default mode for templates without explicit hydrogen atoms): for EVERY substrate graph, rule graph and valid match (boolean hypotheses wf_hostb, wf_rcb, match_rcb) "
               "(a) the reactant molecule graph of the glued ITS is the substrate (same atoms in the same order, same bonds), (b) every element "
@@ -1050,7 +1086,11 @@ LEVEL_TEXT = ("Machine-checked proof (Coq, 60 theorems, all closed under the glo
               "Round 5: the visiting order of a hydrogen-transfer group inside _explicit_h (a Python set: hash-table order) is a parameter of the model "
               "(model/C03_Order.v; the sorted order assumed before differs from the code as soon as a group has two donors and two recipients with ids >= 8: "
               "population synthetic-group); all _explicit_h theorems are proved for every order, and the partner choice inside a group is characterised in "
-              "closed form (first fit = zip of slots, C03_first_fit_zip).")
+              "closed form (first fit = zip of slots, C03_first_fit_zip). The reactor's lazily cached attributes (_rule, _mappings + explicit-hydrogen flag, _its, "
+              "_smarts) are modelled as a state machine (model/C03_Reactor.v) and scripts of reads on fresh reactors are compared value by value; proved: every "
+              "read, in any order and any number of times, returns the value the inputs determine (C03_reads_stable, C03_fresh_its_route), the direction of the "
+              "returned strings (C03_smarts_direction), and what the code does after _explicit_h raises (C03_reads_after_crash: later reads silently return the "
+              "glued graphs).")
 LEVEL_NOTE = ("Trusted: Coq kernel + vm_compute; the hand-written model, the statement vocabulary (proof/C03_Spec.v) and the harness encoders; RDKit "
               "parsing and VF2 matching are oracle inputs (every mapping used is re-validated by the model's match_okb / match_rcb and the theorems' "
               "hypotheses are recomputed on every case). Modelled and compared but NOT proved: default-mode rule preparation (_strip_explicit_h), "
